@@ -4,7 +4,7 @@
     transcribed selection logic of the API accessors (Api/ApiLen.v). *)
 From Coq Require Import NArith List Bool Lia.
 From SFV Require Import Base.Bytes Gen.NanBoxGen NanBox.NanBox Msgpack.Wire Read.Lazy Read.ReadRun Read.ReadSpec
-  Read.ReadFuel Api.ApiLen Properties.C01 Properties.C06.
+  Read.ReadFuel Api.ApiLen Properties.C01 Properties.C06 Base.RsPrelude Gen.ApiLenGen Api.ApiLenGenEq.
 Import ListNotations.
 Open Scope N_scope.
 
@@ -89,3 +89,19 @@ Example C11_example :
   N.min 70000 (MAX_VALUE_LENGTH 32) = 16383 /\ api_len 32 16383 (Some 70000) = Some 70000 /\ api_len 32 5 (Some 5) = Some 5 /\
   api_len 32 (MAX_VALUE_LENGTH 32) None = None.
 Proof. vm_compute. repeat split. Qed.
+
+(** * The accessor logic IS the code (tie by translation, T8)
+
+    [Gen/ApiLenGen.v] is regenerated on every run from api/src/lib.rs: [Value::array_len] and [Value::obj_len] (decode the
+    handle with the regenerated [NanBox::try_decode]; when the inline length equals [NanBox::MAX_VALUE_LENGTH] ask the
+    length query, here the oracle [q]; [usize::MAX] is "no length").  At both pointer widths, for every handle and every
+    oracle, they compute [api_len] of the decoded inline length and the query's answer ([vq]: [usize::MAX] as [None]). *)
+Theorem C11_code_array_len : forall trap W, W = 32 \/ W = 64 -> forall (q : N -> N) bits, bits < 2 ^ (2 * W) ->
+  Value_array_len W trap q (mkValue bits) =
+  GOk (match try_decode W bits with DOk (VArray _ l) => api_len W l (vq W (q bits)) | _ => None end).
+Proof. exact gen_array_len_eq. Qed.
+
+Theorem C11_code_obj_len : forall trap W, W = 32 \/ W = 64 -> forall (q : N -> N) bits, bits < 2 ^ (2 * W) ->
+  Value_obj_len W trap q (mkValue bits) =
+  GOk (match try_decode W bits with DOk (VObject _ l) => api_len W l (vq W (q bits)) | _ => None end).
+Proof. exact gen_obj_len_eq. Qed.
